@@ -357,7 +357,12 @@ def run_case(p):
                     if len(set(reprs.values())) > 1:
                         viol.append({"oracle": "variants-differ", "site": "-", "key": f"{key}/{st}", "detail": str(reprs)[:500]})
         # undocumented statuses
-        undocumented = [s for s in (418, 500, 200) if s not in documented][:2] + [520]      # 520: a status the standard library's HTTPStatus does not list
+        # one undocumented status of every class (a success, a redirect / not-modified, a client and a server error: the rule
+        # "undocumented -> UnexpectedStatus or None" does not depend on the class) + 520, which http.HTTPStatus does not list
+        undocumented = []
+        for group in ((200, 202, 204), (304, 301), (418, 404), (500, 503)):
+            undocumented += [s for s in group if s not in documented][:1]
+        undocumented.append(520)
         has_plain = hasattr(mod, "sync")
         for st in undocumented:
             for raise_flag in (False, True):
@@ -366,8 +371,8 @@ def run_case(p):
                     steps += len(outs)
                     for variant, r in outs.items():
                         k = f"{key}/undocumented/{'raise' if raise_flag else 'quiet'}" + (f"/{uname}" if uname != "json" else "")
-                    if st == 520:
-                        k = f"non-standard-status/{'raise' if raise_flag else 'quiet'}"
+                        if st == 520:
+                            k = f"non-standard-status/{'raise' if raise_flag else 'quiet'}"
                         if raise_flag:
                             exc = r.get("exc")
                             if r["ok"] or type(exc).__name__ != "UnexpectedStatus" or not isinstance(exc, errors_mod.UnexpectedStatus):
